@@ -6,6 +6,7 @@ export GOFLAGS=-mod=mod GOPROXY=off GOSUMDB=off GOTOOLCHAIN=local
 V="$(cd "$(dirname "$0")/.." && pwd)"; TIER="${1:-quick}"
 for D in "$V"/seeded/C*; do
   id="$(basename "$D")"; P="${id%%-*}"
+  cp_="$(python3 -c "import json;print(json.load(open('$D/meta.json')).get('check_property',''))" 2>/dev/null)"; [ -n "$cp_" ] && P="$cp_"
   M="$(mktemp -d /tmp/reseed.XXXXXX)"
   git -C /repo archive HEAD | tar -x -C "$M"
   if ! (cd "$M" && git init -q . && git apply --whitespace=nowarn "$D/patch.diff" 2>/dev/null); then echo "$id: PATCH-DOES-NOT-APPLY"; rm -rf "$M"; continue; fi
